@@ -8,6 +8,24 @@ ALL = [f'C{i:02d}' for i in range(1, 21)]
 
 # property -> (level text, level note, technique, design section)
 CHECKS = {
+    'C16': (
+        'Lean 4 theorems for every length / table: bit packing round-trips for every number of repetitions (C16_unpack_pack, by induction over '
+        'byte chunks with the little-endian byte lemma bitsLE_byteLE), a key\'s records (repetitions x instances x qubits) stored as one packed '
+        'column per qubit read back unchanged (C16_fromCols_toCols, C16_decode_encode), and for the shared constants table of the program format: '
+        'the position handed out for a constant holds that constant (C16_intern_resolves), interning never moves earlier entries '
+        '(C16_intern_extends), a constant is never stored twice (C16_intern_nodup) and resolving the positions handed out for any sequence of '
+        'constants against the final table returns exactly that sequence (C16_internAll_resolves: shared constants never mix up operations). T2: '
+        'pack_bits / unpack_bits / results_to_proto bytes against the model; results_from_proto round trip incl. reordered measurement info; every '
+        'serialized program\'s constants table against the interning model; circuits over the serializable vocabulary (numeric / symbolic arguments, '
+        'tags, internal gates, classical controls, nested circuit operations, multi-program form), sweeps (float32 / float64, run contexts) and '
+        'device specifications round-tripped through the real protos and compared by an oracle that does not use the serializer; validate_operation '
+        'decisions against the specification.',
+        'Trusted: Lean kernel; harness + driver; protobuf library; the structural round-trip oracle (1e-6 relative tolerance, global phase); the '
+        'program / sweep / device round trips are T2 only (no Lean model of the message trees); v1 formats, calibration messages and engine_result '
+        'wrappers are not covered.',
+        'Lean 4 proof (induction over bit lists, record tables and interning sequences) + differential correspondence on real protos',
+        'DESIGN.md §3 C16',
+    ),
     'C19': (
         'Lean 4: Spec/Qasm.lean transcribes qelib1.inc / stdgates.inc — every library gate expanded into the built-ins U(theta,phi,lambda) and CX — '
         'polymorphically in the angle and amplitude types. Props.C19 evaluates the same definitions exactly (angles in units of pi/4, amplitudes in '
